@@ -46,6 +46,38 @@ class RealPB(object):
             self.handle = ServiceError(7, 'service said no')
 
 
+def _square(conn, x):
+    conn.send(x * x)
+    conn.close()
+
+
+def square_in_helper(x, how):
+    """what a replayed operation that farms work out does: computes x*x in a helper - a multiprocessing.Process of its own
+    ('process') or a thread ('thread') - and waits for it"""
+    if how == 'thread':
+        import threading
+        box = []
+        t = threading.Thread(target=lambda: box.append(x * x))
+        t.start()
+        t.join(10)
+        return box[0] if box else None
+    recv, send = multiprocessing.Pipe(False)
+    p = multiprocessing.Process(target=_square, args=(send, x))
+    p.start()
+    send.close()
+    try:
+        return recv.recv() if recv.poll(10) else None
+    finally:
+        recv.close()
+        p.join(10)
+        if p.is_alive():
+            p.kill()
+
+
+def open_fds():
+    return len(os.listdir('/proc/self/fd'))
+
+
 WATCHDOG = 15.0     # seconds after which a run that is still going is declared stuck (the scripts take < 4 s)
 
 
@@ -63,6 +95,12 @@ def run_real_once(case, dedicated=True):
         os.close(f)
         if b == 'player_raises':
             raise ValueError('boom-player')
+        if b.startswith('spawns'):
+            # the replayed operation itself uses a helper process / thread (in whichever process it is replayed)
+            x = S.unrid(r)
+            got = square_in_helper(x, 'thread' if b == 'spawns:thread' else 'process')
+            if got != x * x:
+                raise ValueError('helper returned %r' % (got,))
         if os.getpid() != parent:
             if b in ('exit0', 'exit1'):
                 raise SystemExit(int(b[4:]))
@@ -156,7 +194,17 @@ def run_real_once(case, dedicated=True):
             t = time.time()
 
     old_handler = signal.signal(signal.SIGALRM, on_alarm)
-    signal.setitimer(signal.ITIMER_REAL, WATCHDOG, 1.0)
+    signal.setitimer(signal.ITIMER_REAL, case.get('watchdog', WATCHDOG), 1.0)
+    # case['fd_headroom']: the run gets that many file descriptors more than are open now (soft RLIMIT_NOFILE): a long history
+    # under the finite descriptor limit every process has
+    old_limit = None
+    if case.get('fd_headroom') is not None:
+        import resource
+        gc.collect()
+        old_limit = resource.getrlimit(resource.RLIMIT_NOFILE)
+        want = open_fds() + case['fd_headroom']
+        if old_limit[0] == resource.RLIM_INFINITY or want < old_limit[0]:
+            resource.setrlimit(resource.RLIMIT_NOFILE, (want, old_limit[1]))
     try:
         if mode == 'close':
             gen = eq.run_comparison()
@@ -200,6 +248,9 @@ def run_real_once(case, dedicated=True):
     dog['armed'] = False
     signal.setitimer(signal.ITIMER_REAL, 0)
     signal.signal(signal.SIGALRM, old_handler)
+    if old_limit is not None:
+        import resource
+        resource.setrlimit(resource.RLIMIT_NOFILE, old_limit)
     if dog['fired']:
         outcome = 'stuck'      # also when the interpreter swallowed it inside the finaliser of a dropped generator
     ended = time.time()
